@@ -384,6 +384,59 @@ func ExhaustiveUintN(lo, hi uint64) (viol []Violation, evals int) {
 	return
 }
 
+// RejectionRuns: tapes that make UintN(n) reject R consecutive attempts before an accepted one, for R up to 40:
+// the loop "repeat until accepted" must return the value of the first accepted chunk after consuming (R+1)*size bytes
+func RejectionRuns(seed int64) (viol []Violation, evals int) {
+	rng := rand.New(rand.NewSource(seed))
+	ns := []uint64{3, 5, 6, 7, 9, 100, 129, 255, 257, 1000, 32769, 65537, (1 << 24) + 1, (1 << 32) + 1, (1 << 40) + 3, (1 << 63) + 1}
+	for _, n := range ns {
+		size, _, _ := SpecAttempt(n, 0)
+		// a rejected and an accepted chunk value
+		var rej, acc, accVal uint64
+		foundR, foundA := false, false
+		for tries := 0; tries < 10000 && !(foundR && foundA); tries++ {
+			c := rng.Uint64()
+			if size < 8 {
+				c &= (uint64(1) << (8 * uint(size))) - 1
+			}
+			_, a, v := SpecAttempt(n, c)
+			if a && !foundA {
+				acc, accVal, foundA = c, v, true
+			} else if !a && !foundR {
+				rej, foundR = c, true
+			}
+		}
+		if !foundR || !foundA {
+			continue
+		}
+		for _, R := range []int{1, 2, 3, 7, 15, 16, 17, 31, 32, 33, 40} {
+			var data []byte
+			for k := 0; k < R; k++ {
+				data = append(data, leBytes64(rej, size)...)
+			}
+			data = append(data, leBytes64(acc, size)...)
+			t := &tape{data: data}
+			got := random.NewVerifRand(t.read).UintN(n)
+			evals++
+			if got != accVal || t.pos != (R+1)*size {
+				viol = append(viol, Violation{"C15", "UintNRejection", fmt.Sprintf("UintN(%d) after %d rejected attempts returned %d having consumed %d bytes; the first accepted chunk gives %d after %d bytes", n, R, got, t.pos, accVal, (R+1)*size)})
+				if len(viol) > 3 {
+					return
+				}
+			}
+		}
+	}
+	return
+}
+
+func leBytes64(v uint64, size int) []byte {
+	b := make([]byte, size)
+	for i := 0; i < size; i++ {
+		b[i] = byte(v >> (8 * uint(i)))
+	}
+	return b
+}
+
 // SampledLargeN: n = 2^k, 2^k +- 1 (k up to 64) and 2^64-1 on seeded tapes: the real result equals the specification's
 func SampledLargeN(seed int64, per int) (viol []Violation, evals int) {
 	rng := rand.New(rand.NewSource(seed))
